@@ -477,4 +477,436 @@ theorem buildT_fst : ∀ (ns : List Node) (rs : List (List Entry)) (acc : List (
   | nil => intro rs acc; rfl
   | cons n ns ih => intro rs acc; simp only [buildT, buildL, ih]
 
+/-! ### back-pointers: `argmin` (the index half of `connect_node`) -/
+
+/-- entry `j` of the row is connected to BOS and offers the cumulative cost `w` to `n` -/
+def candAt (row : List Entry) (n : Node) (j : Nat) (w : Int) : Prop :=
+  ∃ m t, row[j]? = some (m, some t) ∧ w = t + conn m.r n.l + n.c
+
+theorem candAt_zero (ent : Entry) (rest : List Entry) (n : Node) (w : Int) :
+    candAt conn (ent :: rest) n 0 w ↔ cand conn n ent w := by
+  obtain ⟨m, o⟩ := ent
+  simp only [candAt, cand, List.getElem?_cons_zero, Option.some.injEq, Prod.mk.injEq]
+  constructor
+  · rintro ⟨m', t, ⟨rfl, rfl⟩, hw⟩; exact ⟨t, rfl, hw⟩
+  · rintro ⟨t, ht, hw⟩; exact ⟨m, t, ⟨rfl, ht⟩, hw⟩
+
+theorem candAt_succ (ent : Entry) (rest : List Entry) (n : Node) (j : Nat) (w : Int) :
+    candAt conn (ent :: rest) n (j + 1) w ↔ candAt conn rest n j w := by
+  simp [candAt]
+
+theorem candAt_cand {row : List Entry} {n : Node} {j : Nat} {w : Int} (h : candAt conn row n j w) :
+    ∃ ent ∈ row, cand conn n ent w := by
+  obtain ⟨m, t, hj, hw⟩ := h
+  exact ⟨(m, some t), List.mem_of_getElem? hj, t, rfl, hw⟩
+
+/-- the cost component of `argminGo` is the `stepMin` fold of `connect` -/
+theorem argminGo_snd (n : Node) : ∀ (row : List Entry) (k : Nat) (best : Option (Nat × Int)),
+    (argminGo conn n row k best).map (·.2) = row.foldl (stepMin conn n) (best.map (·.2)) := by
+  intro row
+  induction row with
+  | nil => intro k best; rfl
+  | cons ent rest ih =>
+    intro k best
+    simp only [argminGo, List.foldl]
+    cases he : ent.2 with
+    | none =>
+      have hs : stepMin conn n (best.map (·.2)) ent = best.map (·.2) := by simp [stepMin, he]
+      rw [hs]; exact ih (k + 1) best
+    | some t =>
+      cases best with
+      | none =>
+        have hs : stepMin conn n (Option.map (·.2) (none : Option (Nat × Int))) ent
+            = Option.map (·.2) (some (k, t + conn ent.1.r n.l + n.c)) := by simp [stepMin, he]
+        rw [hs]; exact ih (k + 1) _
+      | some jm =>
+        obtain ⟨j, m⟩ := jm
+        by_cases hlt : t + conn ent.1.r n.l + n.c < m
+        · have hs : stepMin conn n (Option.map (·.2) (some (j, m))) ent
+              = Option.map (·.2) (some (k, t + conn ent.1.r n.l + n.c)) := by simp [stepMin, he, hlt]
+          rw [hs]; simp only [hlt, if_true]; exact ih (k + 1) _
+        · have hs : stepMin conn n (Option.map (·.2) (some (j, m))) ent
+              = Option.map (·.2) (some (j, m)) := by simp [stepMin, he, hlt]
+          rw [hs]; simp only [hlt, if_false]; exact ih (k + 1) _
+
+/-- the index component: either the incoming best survives, or the result is the FIRST position of
+the row that beats the incoming best and is not beaten later (strict `<` in the Rust loop) -/
+theorem argminGo_idx (n : Node) : ∀ (row : List Entry) (k : Nat) (best : Option (Nat × Int)) (i : Nat) (v : Int),
+    argminGo conn n row k best = some (i, v) →
+    best = some (i, v) ∨
+    ∃ j, i = k + j ∧ candAt conn row n j v ∧ (∀ a, best = some a → v < a.2) ∧
+      ∀ j' w, j' < j → candAt conn row n j' w → v < w := by
+  intro row
+  induction row with
+  | nil => intro k best i v h; exact Or.inl h
+  | cons ent rest ih =>
+    intro k best i v h
+    simp only [argminGo] at h
+    -- lift a result found in `rest` (at offset k+1) to the whole row
+    have lift : ∀ (best' : Option (Nat × Int)) (j : Nat), i = k + 1 + j → candAt conn rest n j v →
+        (∀ j' w, j' < j → candAt conn rest n j' w → v < w) →
+        (∀ w, cand conn n ent w → v < w) → (∀ a, best = some a → v < a.2) →
+        ∃ j, i = k + j ∧ candAt conn (ent :: rest) n j v ∧ (∀ a, best = some a → v < a.2) ∧
+          ∀ j' w, j' < j → candAt conn (ent :: rest) n j' w → v < w := by
+      intro _ j hi hc hfirst hent hb
+      refine ⟨j + 1, by omega, (candAt_succ conn ent rest n j v).mpr hc, hb, ?_⟩
+      intro j' w hj' hw
+      cases j' with
+      | zero => exact hent w ((candAt_zero conn ent rest n w).mp hw)
+      | succ j'' => exact hfirst j'' w (by omega) ((candAt_succ conn ent rest n j'' w).mp hw)
+    cases he : ent.2 with
+    | none =>
+      simp only [he] at h
+      rcases ih (k + 1) best i v h with hb | ⟨j, hi, hc, hb, hfirst⟩
+      · exact Or.inl hb
+      · refine Or.inr (lift best j hi hc hfirst ?_ hb)
+        intro w ⟨t, ht, _⟩; rw [he] at ht; cases ht
+    | some t =>
+      simp only [he] at h
+      have hent : ∀ w, cand conn n ent w → w = t + conn ent.1.r n.l + n.c := by
+        intro w ⟨t', ht', hw⟩; rw [he] at ht'; cases ht'; exact hw
+      have hhere : candAt conn (ent :: rest) n 0 (t + conn ent.1.r n.l + n.c) :=
+        (candAt_zero conn ent rest n _).mpr ⟨t, he, rfl⟩
+      cases best with
+      | none =>
+        simp only at h
+        rcases ih (k + 1) _ i v h with hb | ⟨j, hi, hc, hb, hfirst⟩
+        · simp only [Option.some.injEq, Prod.mk.injEq] at hb
+          obtain ⟨rfl, rfl⟩ := hb
+          exact Or.inr ⟨0, rfl, hhere, by simp, by intro j' w hj'; omega⟩
+        · refine Or.inr (lift none j hi hc hfirst ?_ (by simp))
+          intro w hw; rw [hent w hw]; exact hb _ rfl
+      | some jm =>
+        obtain ⟨j0, m⟩ := jm
+        simp only at h
+        by_cases hlt : t + conn ent.1.r n.l + n.c < m
+        · simp only [hlt, if_true] at h
+          rcases ih (k + 1) _ i v h with hb | ⟨j, hi, hc, hb, hfirst⟩
+          · simp only [Option.some.injEq, Prod.mk.injEq] at hb
+            obtain ⟨rfl, rfl⟩ := hb
+            refine Or.inr ⟨0, rfl, hhere, ?_, by intro j' w hj'; omega⟩
+            intro a ha; cases ha; exact hlt
+          · have hv := hb _ rfl
+            refine Or.inr (lift (some (j0, m)) j hi hc hfirst ?_ ?_)
+            · intro w hw; rw [hent w hw]; exact hv
+            · intro a ha; cases ha; simp only at hv ⊢; omega
+        · simp only [hlt, if_false] at h
+          rcases ih (k + 1) _ i v h with hb | ⟨j, hi, hc, hb, hfirst⟩
+          · exact Or.inl hb
+          · have hv := hb _ rfl
+            refine Or.inr (lift (some (j0, m)) j hi hc hfirst ?_ hb)
+            intro w hw; rw [hent w hw]; simp only at hv; omega
+
+/-- `argmin` reports the cost that `connect` reports -/
+theorem argmin_connect (row : List Entry) (n : Node) :
+    (argmin conn row n).map (·.2) = connect conn row n :=
+  argminGo_snd conn n row 0 none
+
+/-- the back-pointer: a connected entry of the row offering exactly the reported cost, no entry
+offers less, and every earlier entry offers strictly more -/
+theorem argmin_some (row : List Entry) (n : Node) (i : Nat) (v : Int) (h : argmin conn row n = some (i, v)) :
+    candAt conn row n i v ∧ (∀ j w, candAt conn row n j w → v ≤ w) ∧
+    (∀ j w, j < i → candAt conn row n j w → v < w) := by
+  have hc : connect conn row n = some v := by rw [← argmin_connect, h]; rfl
+  have hf := foldl_stepMin conn n row none
+  unfold connect at hc
+  rw [hc] at hf
+  rcases argminGo_idx conn n row 0 none i v h with hb | ⟨j, hi, hcand, _, hfirst⟩
+  · cases hb
+  · have : i = j := by omega
+    subst this
+    refine ⟨hcand, ?_, hfirst⟩
+    intro j' w hw
+    obtain ⟨ent, hent, hce⟩ := candAt_cand conn hw
+    exact hf.2.2 ent hent w hce
+
+theorem connect_argmin (row : List Entry) (n : Node) (v : Int) (h : connect conn row n = some v) :
+    ∃ i, argmin conn row n = some (i, v) := by
+  have := argmin_connect conn row n
+  rw [h] at this
+  cases ha : argmin conn row n with
+  | none => rw [ha] at this; cases this
+  | some iv =>
+    obtain ⟨i, w⟩ := iv
+    rw [ha] at this
+    simp only [Option.map_some, Option.some.injEq] at this
+    exact ⟨i, by rw [this]⟩
+
+/-! ### stored totals are `connect` over the FINAL rows -/
+
+theorem insert_other (rows : Rows) (n : Node) (e : Nat) (h : e ≠ n.e) : insert conn rows n e = rows e := by
+  simp [insert, h]
+
+/-- rows at `n.b` do not change after `n` was inserted: by the insertion order no later node ends there -/
+theorem stored_build : ∀ (ns : List Node) (rows : Rows), (∀ n ∈ ns, n.b < n.e) → Ordered ns →
+    (∀ e, ∀ ent ∈ rows e, ent.1 ≠ bos →
+      ent.2 = connect conn (rows ent.1.b) ent.1 ∧ ∀ n ∈ ns, n.e ≠ ent.1.b) →
+    ∀ e, ∀ ent ∈ build conn ns rows e, ent.1 ≠ bos →
+      ent.2 = connect conn (build conn ns rows ent.1.b) ent.1 := by
+  intro ns
+  induction ns with
+  | nil => intro rows _ _ h e ent hent hne; exact (h e ent hent hne).1
+  | cons n ns ih =>
+    intro rows hwf hord h
+    simp only [build]
+    apply ih (insert conn rows n) (fun x hx => hwf x (by simp [hx])) hord.2
+    intro e ent hent hne
+    have hnbe := hwf n (by simp)
+    have old : ent ∈ rows e → ent.2 = connect conn (insert conn rows n ent.1.b) ent.1 ∧ ∀ n' ∈ ns, n'.e ≠ ent.1.b := by
+      intro ho
+      obtain ⟨h1, h2⟩ := h e ent ho hne
+      have hb : ent.1.b ≠ n.e := fun hc => h2 n (by simp) hc.symm
+      rw [insert_other conn rows n _ hb]
+      exact ⟨h1, fun n' hn' => h2 n' (by simp [hn'])⟩
+    simp only [insert] at hent
+    split at hent
+    · rcases List.mem_append.mp hent with ho | hnew
+      · exact old ho
+      · simp only [List.mem_singleton] at hnew
+        subst hnew
+        simp only
+        rw [insert_other conn rows n _ (by omega)]
+        exact ⟨rfl, fun m hm => hord.1 m hm⟩
+    · exact old hent
+
+theorem stored_total (F : List Node) (hwf : WF F) (hord : Ordered F) :
+    ∀ e, ∀ ent ∈ build conn F init e, ent.1 ≠ bos →
+      ent.2 = connect conn (build conn F init ent.1.b) ent.1 := by
+  apply stored_build conn F init hwf hord
+  intro e ent hent hne
+  simp only [init] at hent
+  split at hent
+  · simp only [List.mem_singleton] at hent; subst hent; exact absurd rfl hne
+  · cases hent
+
+/-! ### following the back-pointers (`fill_top_path`) -/
+
+/-- word costs and connection costs along a chain continuing `prev`, WITHOUT the connection to EOS
+(what `VNode.total_cost` of the last node holds) -/
+def prefixCost : Node → List Node → Int
+  | _, [] => 0
+  | prev, n :: rest => conn prev.r n.l + n.c + prefixCost n rest
+
+/-- every node of the chain is stored, with the total derived from its predecessor's total -/
+def Tight (rows : Rows) : Node → Int → List Node → Prop
+  | _, _, [] => True
+  | m, t, n :: rest =>
+    (n, some (t + conn m.r n.l + n.c)) ∈ rows n.e ∧ Tight rows n (t + conn m.r n.l + n.c) rest
+
+theorem bos_total (F : List Node) (hwf : WF F) {rows : Rows} {done : List Node} (hinv : Inv conn F rows done)
+    {e : Nat} {t : Option Int} (h : (bos, t) ∈ rows e) : t = some 0 := by
+  have hopt := (hinv.sound e (bos, t) h).2.2
+  cases t with
+  | none => exact absurd Reach.bos (hopt 0)
+  | some v => rw [reach_bos conn F hwf hopt.1]
+
+/-- the walk from a connected node `n` down to BOS: `acc` is the part of the path after `n` -/
+theorem pathFrom_spec (F : List Node) (hwf : WF F) (rows : Rows) (done : List Node)
+    (hinv : Inv conn F rows done)
+    (hst : ∀ e, ∀ ent ∈ rows e, ent.1 ≠ bos → ent.2 = connect conn (rows ent.1.b) ent.1)
+    (len : Nat) (v : Int) :
+    ∀ (fuel : Nat) (n : Node) (acc : List Node), n.b < fuel →
+      (∃ tn, connect conn (rows n.b) n = some tn) →
+      (∀ m t, (m, some t) ∈ rows n.b → connect conn (rows n.b) n = some (t + conn m.r n.l + n.c) →
+         IsChain F m acc ∧ lastEnd m acc = len ∧ t + chainCost conn m acc = v ∧ Tight conn rows m t acc) →
+      IsChain F bos (pathFrom conn rows fuel n acc) ∧ lastEnd bos (pathFrom conn rows fuel n acc) = len ∧
+      chainCost conn bos (pathFrom conn rows fuel n acc) = v ∧ Tight conn rows bos 0 (pathFrom conn rows fuel n acc) := by
+  intro fuel
+  induction fuel with
+  | zero => intro n acc h; omega
+  | succ fuel ih =>
+    intro n acc hfuel ⟨tn, htn⟩ H
+    obtain ⟨i, hi⟩ := connect_argmin conn (rows n.b) n tn htn
+    obtain ⟨⟨m, t, hget, hv⟩, _, _⟩ := argmin_some conn (rows n.b) n i tn hi
+    have hmem : (m, some t) ∈ rows n.b := List.mem_of_getElem? hget
+    obtain ⟨hme, hmF, _⟩ := hinv.sound n.b (m, some t) hmem
+    simp only at hme hmF
+    obtain ⟨h1, h2, h3, h4⟩ := H m t hmem (by rw [htn, hv])
+    simp only [pathFrom, hi, hget]
+    by_cases hz : m.e = 0
+    · simp only [hz, if_true]
+      have hb : m = bos := by
+        rcases hmF with h | h
+        · exact h
+        · have := hwf m h; omega
+      subst hb
+      have ht := bos_total conn F hwf hinv hmem
+      simp only [Option.some.injEq] at ht
+      subst ht
+      exact ⟨h1, h2, by omega, h4⟩
+    · simp only [hz, if_false]
+      have hmne : m ≠ bos := by intro hc; rw [hc] at hz; exact hz rfl
+      have hmF' : m ∈ F := by
+        rcases hmF with h | h
+        · exact absurd h hmne
+        · exact h
+      have hmb := hwf m hmF'
+      have hstm : some t = connect conn (rows m.b) m := hst n.b (m, some t) hmem hmne
+      apply ih m (m :: acc) (by omega) ⟨t, hstm.symm⟩
+      intro m' t' hmem' hc'
+      have hm'e := (hinv.sound m.b (m', some t') hmem').1
+      simp only at hm'e
+      have htt : t = t' + conn m'.r m.l + m.c := by
+        rw [← hstm] at hc'; simpa using hc'
+      refine ⟨⟨hmF', hm'e.symm, h1⟩, h2, ?_, ?_, ?_⟩
+      · simp only [chainCost]; omega
+      · rw [← htt, hme]; exact hmem
+      · rw [← htt]; exact h4
+
+/-- termination of `fill_top_path`: every step goes to a node ending where the current one begins and
+candidates are non-empty, so once the fuel exceeds the begin of the current node more fuel changes nothing -/
+theorem pathFrom_fuel_succ (F : List Node) (hwf : WF F) (rows : Rows)
+    (hs : ∀ e, ∀ ent ∈ rows e, ent.1.e = e ∧ (ent.1 = bos ∨ ent.1 ∈ F)) :
+    ∀ (fuel : Nat) (n : Node) (acc : List Node), n.b < fuel →
+      pathFrom conn rows (fuel + 1) n acc = pathFrom conn rows fuel n acc := by
+  intro fuel
+  induction fuel with
+  | zero => intro n acc h; omega
+  | succ fuel ih =>
+    intro n acc hfuel
+    rw [pathFrom, pathFrom]
+    cases ha : argmin conn (rows n.b) n with
+    | none => rfl
+    | some iv =>
+      obtain ⟨i, w⟩ := iv
+      simp only
+      cases hg : (rows n.b)[i]? with
+      | none => rfl
+      | some mt =>
+        obtain ⟨m, t⟩ := mt
+        simp only
+        by_cases hz : m.e = 0
+        · simp [hz]
+        · simp only [hz, if_false]
+          obtain ⟨hme, hmF⟩ := hs n.b (m, t) (List.mem_of_getElem? hg)
+          simp only at hme hmF
+          have hmF' : m ∈ F := by
+            rcases hmF with h | h
+            · rw [h] at hz; exact absurd rfl hz
+            · exact h
+          have := hwf m hmF'
+          exact ih m (m :: acc) (by omega)
+
+theorem pathFrom_fuel (F : List Node) (hwf : WF F) (rows : Rows)
+    (hs : ∀ e, ∀ ent ∈ rows e, ent.1.e = e ∧ (ent.1 = bos ∨ ent.1 ∈ F))
+    (n : Node) (acc : List Node) (fuel : Nat) (h : n.b < fuel) :
+    ∀ d, pathFrom conn rows (fuel + d) n acc = pathFrom conn rows fuel n acc := by
+  intro d
+  induction d with
+  | zero => rfl
+  | succ d ih =>
+    rw [← ih, ← Nat.add_assoc]
+    exact pathFrom_fuel_succ conn F hwf rows hs (fuel + d) n acc (by omega)
+
+/-- along a tight chain the stored total of every node is the prefix sum up to and including it -/
+theorem tight_prefix (rows : Rows) (n : Node) (p₂ : List Node) : ∀ (p₁ : List Node) (m : Node) (t : Int),
+    Tight conn rows m t (p₁ ++ n :: p₂) →
+    (n, some (t + prefixCost conn m (p₁ ++ [n]))) ∈ rows n.e := by
+  intro p₁
+  induction p₁ with
+  | nil =>
+    intro m t h
+    simp only [List.nil_append, Tight] at h
+    have heq : t + prefixCost conn m ([] ++ [n]) = t + conn m.r n.l + n.c := by
+      simp only [List.nil_append, prefixCost]; omega
+    rw [heq]; exact h.1
+  | cons x rest ih =>
+    intro m t h
+    simp only [List.cons_append, Tight] at h
+    have := ih x _ h.2
+    simp only [List.cons_append, prefixCost]
+    have heq : t + (conn m.r x.l + x.c + prefixCost conn x (rest ++ [n])) =
+        t + conn m.r x.l + x.c + prefixCost conn x (rest ++ [n]) := by omega
+    rw [heq]; exact this
+
+theorem isChain_mem (F : List Node) : ∀ (p : List Node) (prev : Node), IsChain F prev p → ∀ x ∈ p, x ∈ F := by
+  intro p
+  induction p with
+  | nil => intro _ _ x hx; cases hx
+  | cons n rest ih =>
+    intro prev h x hx
+    simp only [List.mem_cons] at hx
+    rcases hx with rfl | hx
+    · exact h.1
+    · exact ih n h.2.2 x hx
+
+/-- the node whose end is `lastEnd` -/
+def lastNode : Node → List Node → Node
+  | prev, [] => prev
+  | _, n :: rest => lastNode n rest
+
+theorem lastNode_e : ∀ (p : List Node) (prev : Node), (lastNode prev p).e = lastEnd prev p := by
+  intro p
+  induction p with
+  | nil => intro _; rfl
+  | cons n rest ih => intro _; exact ih n
+
+/-- the complete cost = cumulative cost of the last word + its connection to EOS -/
+theorem chainCost_prefix : ∀ (p : List Node) (prev : Node),
+    chainCost conn prev p = prefixCost conn prev p + conn (lastNode prev p).r 0 := by
+  intro p
+  induction p with
+  | nil => intro prev; simp [chainCost, prefixCost, lastNode]
+  | cons n rest ih => intro prev; simp only [chainCost, prefixCost, lastNode, ih n]; omega
+
+/-! ### contiguity of a chain, in the form C01 consumes -/
+
+/-- ends along a chain strictly increase and stay below `lastEnd` -/
+theorem chain_ends (F : List Node) (hwf : WF F) : ∀ (p : List Node) (prev : Node), IsChain F prev p →
+    (∀ x ∈ p, prev.e < x.e) ∧ (p.Pairwise (fun a b => a.e < b.e)) ∧ prev.e ≤ lastEnd prev p ∧
+    ∀ x ∈ p, x.e ≤ lastEnd prev p := by
+  intro p
+  induction p with
+  | nil => intro prev _; simp [lastEnd]
+  | cons n rest ih =>
+    intro prev h
+    obtain ⟨hn, hb, hc⟩ := h
+    obtain ⟨i1, i2, i3, i4⟩ := ih n hc
+    have hlt : prev.e < n.e := by have := hwf n hn; omega
+    refine ⟨?_, List.pairwise_cons.mpr ⟨i1, i2⟩, by simp only [lastEnd]; omega, ?_⟩
+    · intro x hx
+      simp only [List.mem_cons] at hx
+      rcases hx with rfl | hx
+      · exact hlt
+      · have := i1 x hx; omega
+    · intro x hx
+      simp only [List.mem_cons] at hx
+      rcases hx with rfl | hx
+      · exact i3
+      · exact i4 x hx
+
+/-- byte ends of the tokens of a chain from BOS, read off a non-decreasing table `tab` (the
+character→byte table): a non-decreasing list that starts at `tab[0]` and ends at `tab[len]`, every
+index in range -/
+theorem chain_cuts (F : List Node) (hwf : WF F) (tab : List Nat) (htab : tab.Pairwise (· ≤ ·))
+    (p : List Node) (hc : IsChain F bos p) (hlen : lastEnd bos p < tab.length) :
+    ((bos :: p).map (fun n => (tab[n.e]?).getD 0)).Pairwise (· ≤ ·) ∧
+    ((bos :: p).map (fun n => (tab[n.e]?).getD 0)).getLast (by simp) = (tab[lastEnd bos p]?).getD 0 ∧
+    ∀ x ∈ p, x.e < tab.length := by
+  obtain ⟨h1, h2, h3, h4⟩ := chain_ends F hwf p bos hc
+  have hin : ∀ x ∈ p, x.e < tab.length := fun x hx => by have := h4 x hx; omega
+  have hmono : ∀ a b : Nat, a ≤ b → b < tab.length → (tab[a]?).getD 0 ≤ (tab[b]?).getD 0 := by
+    intro a b hab hb
+    rcases Nat.lt_or_eq_of_le hab with hlt | rfl
+    · have ha : a < tab.length := by omega
+      have := List.pairwise_iff_getElem.mp htab a b ha hb hlt
+      simpa [List.getElem?_eq_getElem ha, List.getElem?_eq_getElem hb] using this
+    · exact Nat.le_refl _
+  refine ⟨?_, ?_, hin⟩
+  · have hp : (bos :: p).Pairwise (fun a b => a.e ≤ b.e ∧ b.e < tab.length) := by
+      refine List.pairwise_cons.mpr ⟨fun x hx => ⟨Nat.le_of_lt (h1 x hx), hin x hx⟩, ?_⟩
+      exact (h2.imp_of_mem (fun {a b} _ hb hab => ⟨Nat.le_of_lt hab, hin b hb⟩))
+    exact List.Pairwise.map _ (fun a b ⟨hab, hb⟩ => hmono a.e b.e hab hb) hp
+  · rw [List.getLast_map]
+    have : ((bos :: p).getLast (by simp)).e = lastEnd bos p := by
+      rw [← lastNode_e]
+      congr 1
+      have : ∀ (q : List Node) (prev : Node), (prev :: q).getLast (by simp) = lastNode prev q := by
+        intro q
+        induction q with
+        | nil => intro _; rfl
+        | cons y ys ihq => intro prev; rw [List.getLast_cons (by simp)]; exact ihq y
+      exact this p bos
+    rw [this]
+
 end Vit
